@@ -342,6 +342,22 @@ def check_factored(rng, nr, T):
         for b, i in enumerate(ins):
             if not np.allclose(R[u][i], exp[a * T:(a + 1) * T, b * T:(b + 1) * T], atol=1e-9):
                 return dict(what='factored compose differs from -H^{-1} J[targets]', input=inp, signature=dict(op='factored-compose', what='value'))
+    # a collection that has NO row for one of the targets: the absent target is a zero block
+    if n > 1:
+        miss = rng.choice(targets)
+        Jm = JD({o: dict(J.nesteddict[o]) for o in outs if o != miss}, T=T) if False else gen_real_jd(rng, nr, T, [o for o in outs if o != miss], ins, p=0.8)
+        try:
+            Rm = F @ Jm
+            Jsubm = np.block([[embed(Jm.nesteddict.get(t, {}).get(i), T, T) for i in ins] for t in targets])
+            expm = -np.linalg.solve(H, Jsubm)
+            if any(not np.allclose(Rm[u][i], expm[a * T:(a + 1) * T, b * T:(b + 1) * T], atol=1e-9) for a, u in enumerate(unknowns) for b, i in enumerate(ins)):
+                return dict(what='factored compose with a target absent from J differs from -H^{-1} J with a zero block', input=dict(inp, missing=miss), signature=dict(op='factored-compose', what='missing-target'))
+        except Exception as ex:
+            return dict(what=f'factored compose raised {type(ex).__name__} when J has no row for one target (absent entries are zero blocks)', input=dict(inp, missing=miss), signature=dict(op='factored-compose', what='missing-target'))
+    JU = F.to_jacobian_dict()
+    Hinv = -np.linalg.inv(H)
+    if any(not np.allclose(JU[u][t], Hinv[a * T:(a + 1) * T, b * T:(b + 1) * T], atol=1e-9) for a, u in enumerate(unknowns) for b, t in enumerate(targets)):
+        return dict(what='to_jacobian_dict of a factored collection is not -H^{-1}', input=inp, signature=dict(op='factored-to-jacobian-dict'))
     x = {t: nr.normal(size=T) for t in rng.sample(targets, rng.randint(1, n))}
     x['unrelated'] = nr.normal(size=T)
     y = F @ x
